@@ -590,6 +590,7 @@ func c01RowValues(r *core.Run) {
 	w := r.W
 	n := 0
 	siteIn := map[*core.FuncInfo]bool{}
+	var imgSites []c01ImgSite
 	for _, f := range w.SortedFuncs() {
 		if f.Pkg.PkgPath != pUndoExec || w.IsTestFile(f.Decl.Pos()) || f.Decl.Body == nil {
 			continue
@@ -681,6 +682,7 @@ func c01RowValues(r *core.Run) {
 				}
 				n++
 				siteIn[f] = true
+				imgSites = append(imgSites, c01ImgSite{f, sel.X})
 				r.Sites++
 				r.Fn(f)
 				bad := ""
@@ -717,10 +719,143 @@ func c01RowValues(r *core.Run) {
 		}
 		r.Sites++
 		r.Check(found, "C01.restore", core.ShortKey(f.Obj)+" executes its compensating statement per image row", w.Pos(f.Decl.Pos()), "a statement execution inside a loop over the image rows is reached", "no per-row statement execution found for this undo executor")
+		if found {
+			c01WhichImage(r, f, imgSites)
+		}
 	}
 	if n == 0 || execs < 3 {
 		r.Bad("C01.restore", "compensating statements executed per image row", "", "fewer undo executors / per-row statement executions than confirmed by hand")
 	}
+}
+
+type c01ImgSite struct {
+	f *core.FuncInfo
+	x ast.Expr // the image whose Rows the per-row execution ranges over
+}
+
+type c01ImgOrigin struct {
+	fn   *core.FuncInfo // where the undo log's field is selected; nil: not resolved
+	name string
+}
+
+// c01ImageOrigins follows the image expression of a per-row loop back to the selection of the undo log's BeforeImage
+// or AfterImage field: through local variables, and through a parameter to the arguments of the package's callers.
+func c01ImageOrigins(w *core.World, fn *core.FuncInfo, e ast.Expr, depth int) []c01ImgOrigin {
+	unresolved := []c01ImgOrigin{{nil, core.ExprString(e)}}
+	if depth > 4 {
+		return unresolved
+	}
+	info := fn.Pkg.TypesInfo
+	e = ast.Unparen(e)
+	if u, ok := e.(*ast.UnaryExpr); ok && u.Op == token.AND {
+		e = ast.Unparen(u.X)
+	}
+	if st, ok := e.(*ast.StarExpr); ok {
+		e = ast.Unparen(st.X)
+	}
+	switch x := e.(type) {
+	case *ast.SelectorExpr:
+		if fld, ok := info.Uses[x.Sel].(*types.Var); ok && fld.IsField() && inSet(fld.Name(), "BeforeImage", "AfterImage") {
+			if t := info.TypeOf(x.X); t != nil && strings.HasSuffix(t.String(), ".SQLUndoLog") {
+				return []c01ImgOrigin{{fn, fld.Name()}}
+			}
+		}
+	case *ast.Ident:
+		v, ok := info.Uses[x].(*types.Var)
+		if !ok {
+			return unresolved
+		}
+		sig := fn.Obj.Type().(*types.Signature)
+		for i := 0; i < sig.Params().Len(); i++ {
+			if sig.Params().At(i) != v {
+				continue
+			}
+			var out []c01ImgOrigin
+			for _, cs := range w.Callers(fn.Obj) {
+				if cs.Caller == nil || cs.Caller.Pkg.PkgPath != pUndoExec || w.IsTestFile(cs.Call.Pos()) {
+					continue
+				}
+				if i >= len(cs.Call.Args) || cs.Call.Ellipsis.IsValid() {
+					return unresolved
+				}
+				out = append(out, c01ImageOrigins(w, cs.Caller, cs.Call.Args[i], depth+1)...)
+			}
+			if len(out) == 0 {
+				return unresolved
+			}
+			return out
+		}
+		defs := localDefs(fn, v)
+		if len(defs) == 0 {
+			return unresolved
+		}
+		var out []c01ImgOrigin
+		for _, d := range defs {
+			if d.idx >= 0 || d.rng {
+				return unresolved
+			}
+			out = append(out, c01ImageOrigins(w, fn, d.rhs, depth+1)...)
+		}
+		return out
+	}
+	return unresolved
+}
+
+// c01WhichImage (C01.restore): an undo executor restores from the image that holds the rows to restore. The
+// executor that compensates with a DELETE (undo of an insert) ranges over the after image — the before image of an
+// insert is empty; the executors that compensate with an INSERT or an UPDATE (undo of a delete / an update) range over
+// the before image — the after image of a delete is empty and that of an update holds the values the branch wrote.
+// With the other image the loop runs over nothing (or writes the branch's own values back), no statement fails, and
+// the branch is reported as rolled back with the table as the branch left it.
+func c01WhichImage(r *core.Run, ex *core.FuncInfo, sites []c01ImgSite) {
+	w := r.W
+	recv := core.RecvNamed(ex.Obj)
+	reach := map[*core.FuncInfo]bool{}
+	kinds := map[string]bool{}
+	for _, g := range reachFrom(w, []*core.FuncInfo{ex}, ex.Pkg.PkgPath) {
+		reach[g] = true
+		for _, s := range stringConstsIn(g) {
+			if k := firstWord(s); inSet(k, "INSERT", "UPDATE", "DELETE") {
+				kinds[k] = true
+			}
+		}
+	}
+	if len(kinds) != 1 {
+		return // C01.dispatch reports an executor whose compensating statement kind is not unique
+	}
+	want := "BeforeImage"
+	if kinds["DELETE"] {
+		want = "AfterImage"
+	}
+	names := map[string]bool{}
+	unresolved := ""
+	for _, s := range sites {
+		if !reach[s.f] {
+			continue
+		}
+		for _, o := range c01ImageOrigins(w, s.f, s.x, 0) {
+			switch {
+			case o.fn == nil:
+				unresolved = o.name
+			case o.fn == ex || core.RecvNamed(o.fn.Obj) == recv:
+				names[o.name] = true
+			}
+		}
+	}
+	key := core.ShortKey(ex.Obj) + " restores from the image that holds the rows to restore"
+	r.Sites++
+	if unresolved != "" || len(names) == 0 {
+		r.Undecided("C01.restore", key, w.Pos(ex.Decl.Pos()), "cannot follow the image the per-row loop ranges over ('"+unresolved+"') back to the undo log's BeforeImage / AfterImage field")
+		return
+	}
+	var got []string
+	for k := range names {
+		got = append(got, k)
+	}
+	sort.Strings(got)
+	r.Check(len(got) == 1 && got[0] == want, "C01.restore", key, w.Pos(ex.Decl.Pos()),
+		"the per-row loop ranges over the undo log's "+want,
+		"this undo executor executes its compensating statement for the rows of "+strings.Join(got, " and ")+" where "+want+" holds the rows to restore: the loop runs over no row (or writes the branch's own values back), nothing fails, and the branch is answered as rolled back with the table as the branch left it")
 }
 
 // c01SkipFlush (C01.flush): the phase-one flush leaves without writing an undo log only when no recorded image holds
